@@ -15,6 +15,7 @@
 //! A URI builder.
 
 use bytes::BytesMut;
+use conjure_error::Error;
 use conjure_object::{Plain, ToPlain};
 use http::Uri;
 use percent_encoding::{utf8_percent_encode, AsciiSet};
@@ -136,5 +137,13 @@ impl UriBuilder {
         debug_assert!(!self.buf.is_empty());
 
         Uri::from_maybe_shared(self.buf.freeze()).unwrap()
+    }
+
+    /// Like `build`, but reports a URI that `http` cannot represent (e.g. one that is too long) as
+    /// an error rather than panicking.
+    pub fn try_build(self) -> Result<Uri, Error> {
+        debug_assert!(!self.buf.is_empty());
+
+        Uri::from_maybe_shared(self.buf.freeze()).map_err(Error::internal_safe)
     }
 }
